@@ -98,6 +98,8 @@ struct Driver {
     seed: u64,
     slots: HashMap<String, Vec<u8>>,
     mem: HashMap<String, Box<dyn Any>>, // SigningKey<H> objects
+    /// VerifyingKey<H> objects that live across verify calls, one per (hash, public key bytes)
+    vks: HashMap<String, Box<dyn Any>>,
     out: Box<dyn Write>,
     next_id: u64,
     heartbeat: Arc<AtomicU64>,
@@ -623,6 +625,28 @@ fn op_verify<H: HashChain + 'static>(d: &mut Driver, cmd: &Value) {
         let s = VerifierSignature::from_ref(&sig).map_err(|_| "na".to_string())?;
         vk.verify(&msg, &s).map_err(|_| "err".to_string())
     });
+    // entry points 4 and 5: ONE VerifyingKey object per public key that lives across verify calls (verification is
+    // a function of (message, signature, public key) whatever the object verified before); "na" when no object exists
+    let vk_id = format!("{}:{}", alg, hex(&pk));
+    if !d.vks.contains_key(&vk_id) {
+        if let Ok(Ok(vk)) = guarded(|| VerifyingKey::<H>::from_bytes(&pk).map_err(|_| ())) {
+            d.vks.insert(vk_id.clone(), Box::new(vk));
+        }
+    }
+    let (r_re_sig, r_re_ref): (Result<Result<(), String>, String>, Result<Result<(), String>, String>) =
+        match d.vks.get(&vk_id).and_then(|o| o.downcast_ref::<VerifyingKey<H>>()) {
+            Some(vk) => (
+                guarded(|| {
+                    let s = <Signature as SigTrait>::from_bytes(&sig).map_err(|_| "na".to_string())?;
+                    vk.verify(&msg, &s).map_err(|_| "err".to_string())
+                }),
+                guarded(|| {
+                    let s = VerifierSignature::from_ref(&sig).map_err(|_| "na".to_string())?;
+                    vk.verify(&msg, &s).map_err(|_| "err".to_string())
+                }),
+            ),
+            None => (Ok(Err("na".to_string())), Ok(Err("na".to_string()))),
+        };
     let show = |r: &Result<Result<(), String>, String>| -> String {
         match r {
             Ok(Ok(())) => "ok".into(),
@@ -641,8 +665,10 @@ fn op_verify<H: HashChain + 'static>(d: &mut Driver, cmd: &Value) {
     ev.insert("sig_from".into(), json!(show(&r_sig)));
     ev.insert("vk_sig".into(), json!(show(&r_vk_sig)));
     ev.insert("vk_ref".into(), json!(show(&r_vk_ref)));
+    ev.insert("vk_reused_sig".into(), json!(show(&r_re_sig)));
+    ev.insert("vk_reused_ref".into(), json!(show(&r_re_ref)));
     let mut panics = Vec::new();
-    for r in [&r_fn, &r_vk, &r_sig, &r_vk_sig, &r_vk_ref] {
+    for r in [&r_fn, &r_vk, &r_sig, &r_vk_sig, &r_vk_ref, &r_re_sig, &r_re_ref] {
         if let Err(m) = r {
             panics.push(m.clone());
         }
@@ -754,6 +780,59 @@ fn op_persist<H: HashChain + 'static>(d: &mut Driver, cmd: &Value) {
     ev.insert("alg".into(), json!(alg));
     ev.insert("mem".into(), json!(name));
     ev.insert("key".into(), json!(hex(&bytes)));
+    copy_meta(cmd, &mut ev);
+    d.emit(Value::Object(ev));
+}
+
+/// Scenario search (no judging): a message whose LM-OTS digest Q = H(I || u32(q) || D_MESG || C || message) has a
+/// checksum sum(2^w - 1 - digit) of at least `min_cksum` - a digest class ordinary messages reach once in millions
+/// (for n = 32, w = 2: checksum >= 256, where the checksum needs its ninth bit).  The message goes into a slot; the
+/// signature made over it afterwards is judged by TLC like any other.
+fn op_find_msg<H: HashChain + 'static>(d: &mut Driver, cmd: &Value) {
+    let id = d.bytes(&cmd["I"]);
+    let q = d.bytes(&cmd["q"]);
+    let c = d.bytes(&cmd["C"]);
+    let w = cmd["w"].as_u64().unwrap() as u32;
+    let min_cksum = cmd["min_cksum"].as_u64().unwrap() as u32;
+    let max_tries = cmd.get("max_tries").and_then(|x| x.as_u64()).unwrap_or(40_000_000);
+    let mut prefix = Vec::new();
+    prefix.extend_from_slice(&id);
+    prefix.extend_from_slice(&q);
+    prefix.extend_from_slice(&[0x81, 0x81]);
+    prefix.extend_from_slice(&c);
+    let per = 8 / w;
+    let max_digit = (1u32 << w) - 1;
+    let mut found: Option<(u64, u32)> = None;
+    for i in 0..max_tries {
+        let msg = i.to_be_bytes();
+        let qd = H::default().chain(&prefix[..]).chain(&msg[..]).finalize();
+        let mut sum = 0u32;
+        for b in qd.iter() {
+            for k in 0..per {
+                sum += max_digit - ((*b as u32 >> (w * k)) & max_digit);
+            }
+        }
+        if sum >= min_cksum {
+            found = Some((i, sum));
+            break;
+        }
+        if i % 4096 == 0 {
+            d.heartbeat.store(now_ms(), Ordering::Relaxed);
+        }
+    }
+    let mut ev = Map::new();
+    ev.insert("ev".into(), json!("skip"));
+    ev.insert("op".into(), json!("find_msg"));
+    match found {
+        Some((i, sum)) => {
+            d.store(cmd, "msg", &i.to_be_bytes());
+            ev.insert("why".into(), json!(format!("scenario search: message {:016x} has checksum {}", i, sum)));
+        }
+        None => {
+            d.store(cmd, "msg", b"no message found");
+            ev.insert("why".into(), json!("scenario search: no message found within the budget"));
+        }
+    }
     copy_meta(cmd, &mut ev);
     d.emit(Value::Object(ev));
 }
@@ -997,6 +1076,7 @@ fn exec(d: &mut Driver, cmd: &Value) {
         "reset" => {
             d.slots.clear();
             d.mem.clear();
+            d.vks.clear();
             let mut ev = Map::new();
             ev.insert("ev".into(), json!("reset"));
             copy_meta(cmd, &mut ev);
@@ -1035,6 +1115,7 @@ fn exec(d: &mut Driver, cmd: &Value) {
                             seed,
                             slots,
                             mem: HashMap::new(),
+                            vks: HashMap::new(),
                             out: Box::new(buf2),
                             next_id: 1000 * (t as u64 + 1),
                             heartbeat: hb,
@@ -1107,6 +1188,7 @@ fn exec(d: &mut Driver, cmd: &Value) {
                 "load" => dispatch!(alg.as_str(), op_load, d, cmd),
                 "persist" => dispatch!(alg.as_str(), op_persist, d, cmd),
                 "hook" => dispatch!(alg.as_str(), op_hook, d, cmd),
+                "find_msg" => dispatch!(alg.as_str(), op_find_msg, d, cmd),
                 other => panic!("driver: unknown op {}", other),
             }
         }
@@ -1120,6 +1202,7 @@ fn run(scenario: &str, out: &str, seed: u64, heartbeat: Arc<AtomicU64>) {
         seed,
         slots: HashMap::new(),
         mem: HashMap::new(),
+        vks: HashMap::new(),
         out: Box::new(out),
         next_id: 1,
         heartbeat,
